@@ -117,3 +117,69 @@ func verif_C08_run() {
 	verifAssert(verifPanicEvents() <= 1 && (closing == 3 || verifPanicEvents() == 0), "C08.no-unexpected-recovered-panic")
 	verifAssert(verifGoroutinesAlive() == 0, "C08.no-goroutine-left")
 }
+
+// verif_C08_transfer_end: the connection ends in the middle of, or because of,
+// a message transfer: a backend panic inside Data/LMTPData (via DATA or BDAT,
+// before or after consuming), QUIT / disconnect between chunks, or a normal
+// completion followed by a disconnect. Every session gets exactly one Logout,
+// the socket is closed, no goroutine is left and nothing deadlocks.
+func verif_C08_transfer_end() {
+	verifPreemptBound(verifBound(0, 1))
+	lmtp := nondetBool()
+	perRcpt := lmtp && nondetBool()
+	bdat := nondetBool()
+	ending := verifChoice(5) // 0 panic before reading, 1 panic after reading, 2 QUIT between chunks, 3 disconnect between chunks, 4 completes
+	be := &vbackend{lmtpSession: perRcpt}
+	consume := func(r io.Reader) error {
+		if ending == 0 {
+			panic("verif: injected panic before reading")
+		}
+		_, e := verifReadAll(r, 4)
+		if ending == 1 {
+			panic("verif: injected panic after reading")
+		}
+		if e == io.EOF {
+			return nil
+		}
+		return e
+	}
+	be.dataFn = func(_ *vsession, r io.Reader) error { return consume(r) }
+	be.lmtpFn = func(_ *vsession, r io.Reader, _ StatusCollector) error { return consume(r) }
+	s, lg := verifServer(be)
+	s.LMTP = lmtp
+	hello := "EHLO c\r\n"
+	if lmtp {
+		hello = "LHLO c\r\n"
+	}
+	in := hello + "MAIL FROM:<a@v>\r\nRCPT TO:<b@v>\r\n"
+	if bdat {
+		in += "BDAT 2\r\nab"
+		switch ending {
+		case 2:
+			in += "QUIT\r\n"
+		case 3:
+		default:
+			in += "BDAT 1 LAST\r\nc"
+		}
+	} else {
+		assume(ending != 2 && ending != 3)
+		in += "DATA\r\nabc\r\n.\r\n"
+	}
+	in += "NOOP\r\n"
+	vc, _, _ := verifServe(s, []byte(in), io.EOF)
+	verifObserve("c08t", lmtp, perRcpt, bdat, ending, len(be.trace), vc.closes, lg.lines)
+	verifCheckSessions(be, "transfer")
+	verifAssert(be.sessions == 1, "C08.transfer-one-session")
+	verifAssert(vc.closed, "C08.transfer-socket-closed")
+	verifAssert(verifGoroutinesAlive() == 0, "C08.transfer-no-goroutine-left")
+	if ending <= 1 {
+		verifReach("C08.transfer-panic")
+		verifAssert(lg.lines == 1, "C08.transfer-panic-logged-once")
+		// nothing runs after the 421: the NOOP gets no reply
+		reps, wf := verifParseReplies(vc.out)
+		verifAssert(wf && len(reps) > 0 && reps[len(reps)-1].code == 421, "C08.transfer-421-is-last")
+	} else {
+		verifReach("C08.transfer-no-panic")
+		verifAssert(lg.lines == 0, "C08.transfer-nothing-logged")
+	}
+}
